@@ -9,6 +9,7 @@ cd $WT || exit 2
 git diff -- . ':!SEED' > /tmp/confirm_$ID.diff
 if ! diff -q <(git apply --numstat SEED/patch.diff 2>/dev/null | sort) <(git diff --numstat -- . ':!SEED' | sort) >/dev/null; then echo "WARNING: patch.diff differs from the worktree's diff; using the worktree's diff"; cp /tmp/confirm_$ID.diff SEED/patch.diff; fi
 echo "== build with change"; cargo build --offline 2>&1 | tail -1
+ln -sfn $WT/target/debug/wild $WT/target/debug/ld   # compiler-driven tests must link with this tree's wild, not /repo's
 echo "== demo WITH change"; timeout 900 bash SEED/demo.sh $WT/target/debug/wild > /tmp/confirm_${ID}_with.log 2>&1; W=$?; tail -3 /tmp/confirm_${ID}_with.log; echo "exit=$W"
 echo "== demo WITHOUT change (/repo build)"; timeout 900 bash SEED/demo.sh /repo/target/debug/wild > /tmp/confirm_${ID}_without.log 2>&1; WO=$?; tail -3 /tmp/confirm_${ID}_without.log; echo "exit=$WO"
 echo "== test suite with change"; cargo nextest run --workspace --no-fail-fast --tool-config-file pb:/w/lib/nextest.toml --profile pb --test-threads 8 --offline > /tmp/confirm_${ID}_suite.log 2>&1
